@@ -174,41 +174,52 @@ Definition c02c_ok (tr : list (op * result)) : bool := c02c_ok_from [] tr.
    with the restart events simply present (they do not touch the ledger).
    AtLeastOnce: after a restart the consumer may be handed again a suffix of what it already
    got (never skip): the ledger position may move back once per topic right after a restart. *)
-Fixpoint rollback_to (os : list out) (app : list entry) (d : nat) (fuel : nat) : option nat :=
-  (* largest position d' <= d such that os matches app from d' *)
-  match os with
-  | [] => Some d
-  | _ =>
-    if outs_are os (firstn (length os) (skipn d app)) then Some d
-    else match fuel, d with
-         | S f, S d' => rollback_to os app d' f
-         | _, _ => None
-         end
-  end.
+(* Entries with equal payloads (all empty payloads, in particular) cannot be told apart in a
+   trace, so the position the consumer was rolled back to may be ambiguous: the acceptor tracks
+   the SET of positions consistent with everything seen so far and rejects when it is empty. *)
+Record aledger := { al_app : list entry; al_pos : list nat }.
+Definition alg := list (N * aledger).
+Definition aget (g : alg) (t : N) : aledger :=
+  match find (fun p => fst p =? t) g with Some p => snd p | None => {| al_app := []; al_pos := [0%nat] |} end.
+Definition aset (g : alg) (t : N) (l : aledger) : alg := set_assoc t l g.
 
-Definition c06alo_step (g : lg) (fresh : list N) (o : op) (r : result) : option (lg * list N) :=
+Definition matches_at (os : list out) (app : list entry) (d : nat) : bool :=
+  match os with
+  | [] => match skipn d app with [] => true | _ => false end
+  | _ => outs_are os (firstn (length os) (skipn d app))
+  end.
+Definition max_pos (l : list nat) : nat := fold_right Nat.max 0%nat l.
+Definition upto (n : nat) : list nat := seq 0 (S n).
+
+Definition c06alo_step (g : alg) (fresh : list N) (o : op) (r : result) : option (alg * list N) :=
   (* [fresh]: topics that have not yet had a consuming read since the last restart *)
   match o with
   | OReopen => Some (g, map fst g)
+  | OAppend t e =>
+    match r with
+    | ROk => let l := aget g (t_id t) in Some (aset g (t_id t) {| al_app := al_app l ++ [e]; al_pos := al_pos l |}, fresh)
+    | _ => Some (g, fresh)
+    end
+  | OBatch t es =>
+    match r with
+    | ROk => let l := aget g (t_id t) in Some (aset g (t_id t) {| al_app := al_app l ++ es; al_pos := al_pos l |}, fresh)
+    | _ => Some (g, fresh)
+    end
   | ORead t true | OBatchRead t _ true None =>
     match outs_of_result r with
     | None => None
     | Some os =>
-      let l := lget g (t_id t) in
-      if existsb (N.eqb (t_id t)) fresh then
-        match os with
-        | [] => match remaining l with [] => Some (g, fresh) | _ => None end
-        | _ => match rollback_to os (l_app l) (l_del l) (l_del l) with
-               | Some d' => Some (lset g (t_id t) {| l_app := l_app l; l_del := d' + length os |},
-                                  filter (fun x => negb (x =? t_id t)) fresh)
-               | None => None
-               end
-        end
-      else if c01_step_ok g o r then Some (ledger_step g o r, fresh) else None
+      let l := aget g (t_id t) in
+      let cands := if existsb (N.eqb (t_id t)) fresh then upto (max_pos (al_pos l)) else al_pos l in
+      match filter (matches_at os (al_app l)) cands with
+      | [] => None
+      | ok => Some (aset g (t_id t) {| al_app := al_app l; al_pos := map (fun d => (d + length os)%nat) ok |},
+                    filter (fun x => negb (x =? t_id t)) fresh)
+      end
     end
-  | _ => Some (ledger_step g o r, fresh)
+  | _ => Some (g, fresh)
   end.
-Fixpoint c06alo_ok_from (g : lg) (fresh : list N) (tr : list (op * result)) : bool :=
+Fixpoint c06alo_ok_from (g : alg) (fresh : list N) (tr : list (op * result)) : bool :=
   match tr with
   | [] => true
   | (o, r) :: rest => match c06alo_step g fresh o r with
